@@ -82,8 +82,101 @@ Record ropts := mk_ropts {
   o_cumsort : bool;
   o_nodecount : Z;
   o_nodecutoff : Z;         (* abs64(int64(float64(total) * NodeFraction)), computed by the Go expression *)
-  o_edgecutoff : Z
+  o_edgecutoff : Z;
+  o_srcpath : string;       (* source_path *)
+  o_trimpath : string       (* trim_path *)
 }.
+
+Definition set_sample_index (o : ropts) (si : string) : ropts :=
+  mk_ropts (o_gran o) (o_noinlines o) (o_showcolumns o) si (o_mean o) (o_call_tree o) (o_drop_negative o)
+           (o_tagroot o) (o_tagleaf o) (o_format o) (o_cumsort o) (o_nodecount o) (o_nodecutoff o) (o_edgecutoff o)
+           (o_srcpath o) (o_trimpath o).
+
+(* ---------------- glue: what the driver does to the options before the report sees them -------- *)
+(* applyCommandOverrides (driver.go:178), for the commands modelled: a node count that was not given
+   (-1) becomes 0 for text/top and 80 for every other command; an explicit count, 0 included, is
+   kept; trim=false and the callgrind format switch every limit off *)
+Definition override_nodecount (format : string) (notrim : bool) (n : Z) : Z :=
+  if notrim || String.eqb format "callgrind" then 0
+  else if n =? -1 then (if String.eqb format "text" then 0 else 80) else n.
+Definition override_cutoff (format : string) (notrim : bool) (c : Z) : Z :=
+  if notrim || String.eqb format "callgrind" then 0 else c.
+
+(* which node count a command starts from: the web /top handler forces 500 (webui.go:370); an
+   interactive command's own numeric argument replaces the session's value for that command only
+   (interactive.go:261), and an interactive top/text whose count is still "not given" shows 10
+   (interactive.go:302); otherwise the configured one *)
+Definition entry_nodecount (via format : string) (hasarg : bool) (arg n : Z) : Z :=
+  if String.eqb via "web" then 500
+  else if String.eqb via "session" then
+    (let n1 := if hasarg then arg else n in
+     if (n1 =? -1) && String.eqb format "text" then 10 else n1)
+  else n.
+
+(* parseFlags' legacy sample-index flags (cli.go:124-136): in this order, a set flag selects its
+   type only while no sample index has been chosen yet; -mean_delay also switches mean on *)
+Definition legacy_table : list (string * string) :=
+  [("total_delay", "delay"); ("mean_delay", "delay"); ("contentions", "contentions");
+   ("inuse_space", "inuse_space"); ("inuse_objects", "inuse_objects");
+   ("alloc_space", "alloc_space"); ("alloc_objects", "alloc_objects")].
+Definition legacy_si (flags : list string) (si : string) : string :=
+  fold_left (fun si fe => if existsb (String.eqb (fst fe)) flags && String.eqb si "" then snd fe else si)
+            legacy_table si.
+(* which sample index a report starts from.  Command line: the -sample_index flag, else the legacy
+   flags.  Web: the si= URL parameter replaces what the command line left in the configuration.
+   Interactive session: an assignment sample_index=v is checked against the profile when it is
+   typed (interactive.go: SampleIndexByName) and REJECTED when invalid, the previous value stays. *)
+Definition entry_sample_index (via : string) (flags : list string) (si : string) (valid : bool) : string :=
+  if String.eqb via "web" then (if String.eqb si "" then legacy_si flags "" else si)
+  else if String.eqb via "session" then (if negb (String.eqb si "") && valid then si else legacy_si flags "")
+  else legacy_si flags si.
+Definition legacy_mean (flags : list string) (mean : bool) : bool :=
+  mean || existsb (String.eqb "mean_delay") flags.
+
+(* trimPath (report/source.go:1038), applied by Report.newGraph to every Function.Filename on EVERY
+   graph build *)
+Fixpoint str_index_from (s pat : string) (i : nat) : option nat :=
+  if has_prefix pat s then Some i
+  else match s with
+       | EmptyString => None
+       | String _ r => str_index_from r pat (S i)
+       end.
+Fixpoint split_colons (s : string) (cur : string) : list string :=
+  match s with
+  | EmptyString => [cur]
+  | String ":" r => cur :: split_colons r ""
+  | String a r => split_colons r (cur ++ String a "")%string
+  end.
+(* filepath.SplitList *)
+Definition split_list (s : string) : list string := if String.eqb s "" then [] else split_colons s "".
+
+Definition trim_path (path trimp searchp : string) : string :=
+  let guess :=
+    if String.eqb trimp "" then
+      fold_left (fun (acc : option string) dir =>
+                   match acc with
+                   | Some _ => acc
+                   | None => let want := ("/" ++ path_base dir ++ "/")%string in
+                             match str_index_from path want 0 with
+                             | Some found => Some (drop (found + String.length want) path)
+                             | None => None
+                             end
+                   end) (split_list searchp) None
+    else None in
+  match guess with
+  | Some r => r
+  | None =>
+      let prefixes := split_list trimp ++ ["/proc/self/cwd/./"; "/proc/self/cwd/"] in
+      match fold_left (fun (acc : option string) tp =>
+                         match acc with
+                         | Some _ => acc
+                         | None => let tp' := if has_suffix "/" tp then tp else (tp ++ "/")%string in
+                                   if has_prefix tp' path then Some (drop (String.length tp') path) else None
+                         end) prefixes None with
+      | Some r => r
+      | None => path
+      end
+  end.
 
 (* applyCommandOverrides (driver.go:178): callgrind forces granularity addresses *)
 Definition eff_gran (o : ropts) : string :=
@@ -367,6 +460,24 @@ Definition prepare (fmt_num : Z -> string -> string) (o : ropts) (p : profile) :
   | e => (e, mk_prepared p1 0 0)
   end.
 
+(* one call of Report.newGraph rewrites the file names of the report's profile in place *)
+Definition trim_files (o : ropts) (p : profile) : profile :=
+  {| p_sampletype := p_sampletype p; p_defaultsampletype := p_defaultsampletype p; p_sample := p_sample p;
+     p_mapping := p_mapping p; p_location := p_location p;
+     p_function := map (fun f => {| f_id := f_id f; f_name := f_name f; f_sysname := f_sysname f;
+                                    f_file := trim_path (f_file f) (o_trimpath o) (o_srcpath o);
+                                    f_startline := f_startline f |}) (p_function p);
+     p_comments := p_comments p; p_docurl := p_docurl p; p_dropframes := p_dropframes p;
+     p_keepframes := p_keepframes p; p_timenanos := p_timenanos p; p_durationnanos := p_durationnanos p;
+     p_periodtype := p_periodtype p; p_period := p_period p |}.
+Definition rebuild (o : ropts) (pr : prepared) : prepared :=
+  mk_prepared (trim_files o (pr_prof pr)) (pr_ix pr) (pr_total pr).
+
+(* the clean-up reaches a fixed point after one application on this profile *)
+Definition paths_stable (o : ropts) (pr : prepared) : bool :=
+  forallb (fun f => let t := trim_path (f_file f) (o_trimpath o) (o_srcpath o) in
+                    String.eqb (trim_path t (o_trimpath o) (o_srcpath o)) t) (p_function (pr_prof pr)).
+
 Definition report_samples (o : ropts) (pr : prepared) : list (gsample node_info) :=
   gsamples (eff_objnames o) (pr_ix pr) (o_mean o) (pr_prof pr).
 
@@ -382,18 +493,20 @@ Record trimmed := mk_trimmed { t_g : igraph; t_orig : Z; t_dropped_nodes : Z; t_
 
 Definition nlen (g : igraph) : Z := Z.of_nat (List.length (g_nodes g)).
 
-(* first pass: cum cutoff (graph mode) *)
-Definition trim_pass1 (o : ropts) (pr : prepared) : igraph * Z :=
-  let g0 := report_graph o pr None in
+(* first pass: cum cutoff (graph mode).  Every newGraph call works on the profile the previous
+   call left behind; the third component is that state after the pass. *)
+Definition trim_pass1 (o : ropts) (pr : prepared) : igraph * Z * prepared :=
+  let pr1 := rebuild o pr in
+  let g0 := report_graph o pr1 None in
   if 0 <? o_nodecutoff o then
     let kept := above_cum_cutoff node_info (o_nodecutoff o) g0 in
     if negb (nlen g0 =? Z.of_nat (List.length kept))
-    then (report_graph o pr (Some kept), nlen g0 - Z.of_nat (List.length kept))
-    else (g0, 0)
-  else (g0, 0).
+    then (report_graph o (rebuild o pr1) (Some kept), nlen g0 - Z.of_nat (List.length kept), rebuild o pr1)
+    else (g0, 0, pr1)
+  else (g0, 0, pr1).
 
 Definition new_trimmed_text (o : ropts) (pr : prepared) : trimmed :=
-  let '(g1, dropped) := trim_pass1 o pr in
+  let '(g1, dropped, pr2) := trim_pass1 o pr in
   let orig := nlen g1 in
   let g1s := sort_nodes (o_cumsort o) g1 in
   let g2 :=
@@ -403,7 +516,7 @@ Definition new_trimmed_text (o : ropts) (pr : prepared) : trimmed :=
       let top := firstn (Z.to_nat (o_nodecount o)) (g_nodes g1e) in
       let kept := above_cum_cutoff node_info 0 (mk_graph top []) in
       if negb (nlen g1e =? Z.of_nat (List.length kept))
-      then sort_nodes (o_cumsort o) (report_graph o pr (Some kept))
+      then sort_nodes (o_cumsort o) (report_graph o (rebuild o pr2) (Some kept))
       else g1e
     else g1s in
   mk_trimmed (trim_edges node_info (o_edgecutoff o) g2) orig dropped (dropped_edges node_info (o_edgecutoff o) g2).
@@ -417,12 +530,12 @@ Definition reorder (order : list node_info) (g : igraph) : igraph :=
            (g_edges g).
 
 Definition new_trimmed_dot (o : ropts) (pr : prepared) (order : list node_info) : trimmed :=
-  let '(g1, dropped) := trim_pass1 o pr in
+  let '(g1, dropped, pr2) := trim_pass1 o pr in
   let orig := nlen g1 in
   let g1e := if 0 <? o_nodecount o then trim_edges node_info (o_edgecutoff o) g1 else g1 in
   let g2 :=
     if (0 <? o_nodecount o) && negb (nlen g1 =? Z.of_nat (List.length order))
-    then report_graph o pr (Some order)
+    then report_graph o (rebuild o pr2) (Some order)
     else g1e in
   let g3 := reorder order g2 in
   let de := dropped_edges node_info (o_edgecutoff o) g2 in
